@@ -511,6 +511,27 @@ func (e *Engine) harnessIntrinsic(st *State, f *Frame, fn *ssa.Function, name st
 			n += c
 		}
 		return ret(c64(int64(n)))
+	case "vFmtInt":
+		// k-th (from 1) integer operand of the most recent fmt.Sprintf call; natively the k-th decimal
+		// integer of the formatted string (second argument)
+		k := asTerm(args[0])
+		if !k.IsConst() {
+			unsupp("vFmtInt index")
+		}
+		n := 0
+		for _, a := range st.fmtArgs {
+			iv, ok := a.(*IfaceVal)
+			if !ok || iv.t == nil {
+				continue
+			}
+			if t, ok := iv.v.(*Term); ok && t.w > 0 {
+				n++
+				if uint64(n) == k.k {
+					return ret(Resize(t, 64, isSigned(iv.t)))
+				}
+			}
+		}
+		unsupp("vFmtInt: no such integer operand")
 	case "vFmtArg":
 		// integer operand k of the most recent fmt.Sprintf call, as uint64
 		k := asTerm(args[0])
